@@ -97,8 +97,16 @@ def _sig(name, L, scale):
     return A.sig_array(name, L, scale)
 
 
+# every recording is built with the metadata of ANOTHER recording (deployed and currently at 123 degrees), the
+# way metadata is carried over when a recording is re-assembled from processed components: the orientation of the
+# new recording is the one given to its constructor
+FOREIGN_META = {"file name(s)": "carried over from another recording", "deployed degrees from north": 123.0,
+                "current degrees from north": 123.0, "station": "hvmc"}
+
+
 def mk(ns, ew, vt, dt, d):
-    return SeismicRecording3C(TimeSeries(ns, dt), TimeSeries(ew, dt), TimeSeries(vt, dt), degrees_from_north=d)
+    return SeismicRecording3C(TimeSeries(ns, dt), TimeSeries(ew, dt), TimeSeries(vt, dt), degrees_from_north=d,
+                              meta=dict(FOREIGN_META))
 
 
 def window_arrays(w, nwin):
